@@ -479,7 +479,7 @@ func init() {
 // pointers, interfaces and nested structs. Monotone, so documented orderings (fast <= slow) and
 // equalities (paired max/min periods) are preserved.
 func scalePeriods(v reflect.Value, k int, depth int) {
-	if depth > 16 || k <= 1 {
+	if depth > 64 || k <= 1 {
 		return
 	}
 	switch v.Kind() {
@@ -557,7 +557,7 @@ func (ii *IndInstance) String() string { return fmt.Sprintf("%s idle=%d", ii.E.N
 // maxIdle returns the largest IdlePeriod() declared by anything reachable from v (the strategy's
 // indicators, sub-strategies, moving averages), or 0.
 func maxIdle(v reflect.Value, depth int) int {
-	if depth > 16 || !v.IsValid() {
+	if depth > 64 || !v.IsValid() {
 		return 0
 	}
 	best := 0
